@@ -4,6 +4,72 @@
 
 using namespace vf;
 
+// Between two updates of the same graph: new base levels and/or a new mask (base levels stay
+// unmasked and non-empty), returns a description of what was changed.
+static std::string mutate_settings(vg::Src& s, FlowCase& fc, va::IGraph& g, bool every_component)
+{
+    std::string what;
+    size_t n = fc.m.n;
+    size_t kind = s.weighted({ 100, 80, 40, 36 });  // nothing, base levels, mask, both
+    if (kind == 2 || kind == 3)
+    {
+        auto mk = vg::gen_mask(s, fc.m);
+        if (mk.empty())
+            mk.assign(n, 0);
+        fc.mask = mk;
+        g.set_mask(mk);
+        what += " set_mask(" + vg::describe_mask(mk) + ")";
+    }
+    bool need_bl = kind == 1 || kind == 3;
+    for (auto b : fc.bl)
+        if (fc.masked(b))
+            need_bl = true;
+    if (need_bl)
+    {
+        vg::BaseInfo bi;
+        std::vector<size_t> nbl;
+        if (kind == 1 && s.coin() && fc.bl.size() < n)
+        {
+            // same number of base levels at other nodes (a cached size would not notice)
+            std::vector<size_t> cand;
+            for (size_t i = 0; i < n; ++i)
+                if (!fc.masked(i) && !fc.isbase[i])
+                    cand.push_back(i);
+            nbl.clear();
+            for (size_t k = 0; k < fc.bl.size() && !cand.empty(); ++k)
+            {
+                size_t j = s.range(0, cand.size() - 1);
+                nbl.push_back(cand[j]);
+                cand.erase(cand.begin() + static_cast<long>(j));
+            }
+            std::sort(nbl.begin(), nbl.end());
+            if (nbl.empty())
+                nbl = vg::gen_base_levels(s, fc.m, fc.mask, every_component, &bi);
+            else if (every_component)
+            {
+                auto reach = vg::reach_from(fc.m, fc.mask, nbl);
+                for (size_t i = 0; i < n; ++i)
+                    if (!fc.masked(i) && !reach[i])
+                    {
+                        nbl.push_back(i);
+                        reach = vg::reach_from(fc.m, fc.mask, nbl);
+                    }
+                std::sort(nbl.begin(), nbl.end());
+            }
+        }
+        else
+            nbl = vg::gen_base_levels(s, fc.m, fc.mask, every_component, &bi);
+        fc.bl = nbl;
+        fc.bi.is_explicit = true;
+        g.set_base_levels(nbl);
+        what += " set_base_levels(" + vg::describe_set(nbl) + ")";
+    }
+    finish_case(fc);
+    return what;
+}
+
+static bool check_routes(vh::Ctx& c, const FlowCase& fc, const ProgInfo& pi, const GraphState& st, const std::vector<double>& f, const std::string& tag);
+
 static void check_case(vg::Src& s, vh::Ctx& c)
 {
     FlowOpts o;
@@ -13,16 +79,41 @@ static void check_case(vg::Src& s, vh::Ctx& c)
     FlowCase fc = gen_flow_case(s, o);
     ProgInfo pi;
     auto ops = gen_resolver_program(s, pi, true);
+    size_t rounds = s.weighted({ 150, 70, 36 }) + 1;  // 1-3 updates on the same graph
     c.desc = fc.describe() + " ops=" + vg::describe(ops);
     c.announce();
     label_case(c, fc);
     c.label("prog=" + std::to_string(pi.cls) + (pi.has_basic ? "-basic" : pi.has_carve ? "-carve" : ""));
-
+    c.label("rounds=" + std::to_string(rounds));
     Built b = build(fc, ops, c);
-    auto res = b.graph->update_routes(fc.z);
-    const auto& f = res.out;
-    GraphState st = b.graph->state();
+    bool nt = false;
+    for (size_t round = 0; round < rounds; ++round)
+    {
+        std::string tag = "update#" + std::to_string(round + 1) + ": ";
+        if (round > 0)
+        {
+            std::string what = mutate_settings(s, fc, *b.graph, o.every_component);
+            fc.z = vg::gen_field(s, fc.m);
+            c.desc += " |" + what + " update(z=" + vg::describe_field(fc.z, 0) + ")";
+            if (c.verbose)
+                std::cout << "STEP" << what << " update(z=" << vg::describe_field(fc.z, 0) << ")" << std::endl;
+        }
+        auto res = b.graph->update_routes(fc.z);
+        GraphState st = b.graph->state();
+        if (check_routes(c, fc, pi, st, res.out, tag))
+            nt = true;
+        if (!c.known_hits.empty())
+            return;  // excluded known finding: later rounds start from a state we do not judge
+    }
+    c.nontrivial = nt;
+    if (nt)
+        c.label("resolver-had-work");
+}
+
+static bool check_routes(vh::Ctx& c, const FlowCase& fc, const ProgInfo& pi, const GraphState& st, const std::vector<double>& f, const std::string& tag)
+{
     size_t n = fc.m.n;
+    bool had_work = false;
     check_wellformed(c, st, n);
     if (!pi.final_multi)
         for (size_t i = 0; i < n; ++i)
@@ -33,7 +124,7 @@ static void check_case(vg::Src& s, vh::Ctx& c)
         if (fc.masked(i) || fc.isbase[i])
         {
             if (st.rec_count[i] != 1 || R(st, i, 0) != i)
-                c.fail(fc.masked(i) ? "masked-node-drains" : "base-level-drains", "node " + std::to_string(i) + " has receiver " + std::to_string(R(st, i, 0)) + " (count " + std::to_string(st.rec_count[i]) + ")");
+                c.fail(fc.masked(i) ? "masked-node-drains" : "base-level-drains", tag + "node " + std::to_string(i) + " has receiver " + std::to_string(R(st, i, 0)) + " (count " + std::to_string(st.rec_count[i]) + ")");
         }
 
     // (c) no cycle anywhere (all receiver edges, iterative 3-colour DFS)
@@ -58,7 +149,7 @@ static void check_case(vg::Src& s, vh::Ctx& c)
                 if (r == i)
                     continue;
                 if (col[r] == 1)
-                    c.fail("cycle", "receiver edge " + std::to_string(i) + "->" + std::to_string(r) + " closes a cycle");
+                    c.fail("cycle", tag + "receiver edge " + std::to_string(i) + "->" + std::to_string(r) + " closes a cycle");
                 if (col[r] == 0)
                 {
                     col[r] = 1;
@@ -70,7 +161,6 @@ static void check_case(vg::Src& s, vh::Ctx& c)
 
     // (b) every unmasked node connected to a base level drains to a base level, strictly downhill
     auto lev = spill_levels(fc);
-    bool had_work = false;
     for (size_t i = 0; i < n; ++i)
     {
         if (fc.masked(i) || fc.isbase[i] || !fc.reach[i])
@@ -89,17 +179,17 @@ static void check_case(vg::Src& s, vh::Ctx& c)
             self_only = false;
             if (!(f[r] < f[i]))
             {
-                std::string d = "node " + std::to_string(i) + " (f=" + vg::fmt(f[i]) + ") -> receiver " + std::to_string(r) + " (f=" + vg::fmt(f[r]) + ")";
+                std::string d = tag + "node " + std::to_string(i) + " (f=" + vg::fmt(f[i]) + ") -> receiver " + std::to_string(r) + " (f=" + vg::fmt(f[r]) + ")";
                 if (pi.d13_shape && c.fail_matched("D13", "non-decreasing-step", d))
-                    return;
+                    return had_work;
                 c.fail("non-decreasing-step", d);
             }
         }
         if (self_only)
         {
-            std::string d = "node " + std::to_string(i) + " (z=" + vg::fmt(fc.z[i]) + ", f=" + vg::fmt(f[i]) + ", spill level " + vg::fmt(lev[i]) + ") is connected to a base level but is its own receiver";
+            std::string d = tag + "node " + std::to_string(i) + " (z=" + vg::fmt(fc.z[i]) + ", f=" + vg::fmt(f[i]) + ", spill level " + vg::fmt(lev[i]) + ") is connected to a base level but is its own receiver";
             if (pi.d13_shape && c.fail_matched("D13", "pit-remains", d))
-                return;
+                return had_work;
             c.fail("pit-remains", d);
         }
         // walk along first receivers
@@ -110,16 +200,14 @@ static void check_case(vg::Src& s, vh::Ctx& c)
             ++steps;
         }
         if (steps > n)
-            c.fail("cycle", "walk from node " + std::to_string(i) + " does not end");
+            c.fail("cycle", tag + "walk from node " + std::to_string(i) + " does not end");
         if (!fc.isbase[cur])
         {
-            std::string d = "walk from node " + std::to_string(i) + " ends at node " + std::to_string(cur) + " which is not a base level";
+            std::string d = tag + "walk from node " + std::to_string(i) + " ends at node " + std::to_string(cur) + " which is not a base level";
             if (pi.d13_shape && c.fail_matched("D13", "ends-off-base", d))
-                return;
+                return had_work;
             c.fail("ends-off-base", d);
         }
     }
-    c.nontrivial = had_work;
-    if (had_work)
-        c.label("resolver-had-work");
+    return had_work;
 }
